@@ -214,6 +214,22 @@ type c13Rule struct {
 	CapNames []string   `json:"-"`
 }
 
+// the conditions of the rule's pipeline (cel authorizer, step-level `if`)
+func (r c13Rule) conds() []c13Cond {
+	out := []c13Cond{}
+	if r.Authz != nil {
+		out = append(out, *r.Authz)
+	}
+
+	for _, st := range r.Steps {
+		if st.If != nil {
+			out = append(out, *st.If)
+		}
+	}
+
+	return out
+}
+
 func yamlSingle(s string) string { return "'" + strings.ReplaceAll(s, "'", "''") + "'" }
 
 func (r c13Rule) probeTemplate() string {
@@ -403,6 +419,9 @@ func c13GenCond(r *vf.Rand, capNames []string) *c13Cond {
 		c = vf.Pick(r, c13CapValues)
 	case "hdr":
 		c = vf.Pick(r, c13HdrVals)
+		if http.CanonicalHeaderKey(q.N) == "Host" {
+			c = vf.Pick(r, c13Hosts)
+		}
 	case "cookie":
 		c = strings.Trim(vf.Pick(r, c13CookieVals), `"`)
 	case "method":
@@ -420,6 +439,16 @@ func c13GenCond(r *vf.Rand, capNames []string) *c13Cond {
 	}
 
 	return &c13Cond{Q: q, C: c}
+}
+
+func isHost(s string) bool {
+	for _, h := range c13Hosts {
+		if h == s {
+			return true
+		}
+	}
+
+	return false
 }
 
 func isPrintable(s string) bool {
@@ -599,6 +628,13 @@ func c13GenReq(r *vf.Rand, rules []c13Rule) c13Case {
 					v = vf.Pick(r, c13CapValues[:2])
 				}
 
+				// aim at a condition of the rule on this capture
+				for _, cd := range rl.conds() {
+					if cd.Q.K == "cap" && cd.Q.N == s[1:] && cd.C != "" && r.Chance(65) {
+						v = strings.ReplaceAll(strings.ReplaceAll(cd.C, " ", "%20"), "/", "%2F")
+					}
+				}
+
 				path += "/" + v
 				c.Caps = append(c.Caps, [2]string{s[1:], v})
 			}
@@ -694,6 +730,60 @@ func c13GenReq(r *vf.Rand, rules []c13Rule) c13Case {
 			}
 
 			q.Headers = append(q.Headers, c13Hdr{"Content-Length", strconv.Itoa(len(q.Body))})
+		}
+	}
+
+	// aim the request at the conditions of the rule, so that pipelines run to their end often
+	if c.Rule != nil {
+		for _, cd := range c.Rule.conds() {
+			if !r.Chance(60) {
+				continue
+			}
+
+			switch cd.Q.K {
+			case "method":
+				if q.Body == "" || cd.C != "GET" {
+					q.Method = cd.C
+				}
+			case "scheme":
+				q.TLS = cd.C == "https"
+			case "host":
+				if isHost(cd.C) {
+					q.Host = cd.C
+				}
+			case "query":
+				q.Query = cd.C
+			case "hdr":
+				cn := http.CanonicalHeaderKey(cd.Q.N)
+				if cn == "Host" && isHost(cd.C) {
+					q.Host = cd.C
+				} else if cn != "Host" && cn != "Content-Type" && cn != "Cookie" && cn != "Content-Length" && cd.C != "" {
+					kept := q.Headers[:0:0]
+					for _, h := range q.Headers {
+						if http.CanonicalHeaderKey(h.N) != cn {
+							kept = append(kept, h)
+						}
+					}
+
+					q.Headers = append(kept, c13Hdr{c13Casing(r, cn), cd.C})
+				}
+			case "cookie":
+				if cd.C != "" && !strings.ContainsAny(cd.C, " ,;\"=") {
+					kept := q.Headers[:0:0]
+					for _, h := range q.Headers {
+						if !strings.EqualFold(h.N, "cookie") {
+							kept = append(kept, h)
+						}
+					}
+
+					line := cd.Q.N + "=" + cd.C
+					if r.Chance(50) {
+						line = vf.Pick(r, c13CookieNames[2:]) + "=x; " + line
+					}
+
+					q.Headers = append(kept, c13Hdr{c13Casing(r, "Cookie"), line})
+				}
+			}
 		}
 	}
 
